@@ -6,6 +6,7 @@ import GraphiqModel.Proofs.StateToGraph
 import GraphiqModel.Proofs.StateToGraphRoundTrip
 import GraphiqModel.Proofs.StateToGraphTotal
 import GraphiqModel.Proofs.StateToGraphGauge
+import GraphiqModel.Proofs.StateToGraphAdjugate
 import GraphiqModel.Proofs.GraphStateGroup
 namespace Graphiq.C08
 open Graphiq Graphiq.PRow Graphiq.Tab Graphiq.STab
@@ -132,6 +133,35 @@ theorem state_to_graph_complete_real_commuting_independent (t : STab) (hn : 0 < 
       parityTo t.n (fun i => c i && (t.row i).z j) = false) → ∀ i, i < t.n → c i = false) :
     ∃ adj gates, S2G.stateToGraph t = .ok (adj, gates) :=
   state_to_graph_exact_complete t hn ⟨⟨hreal, hcomm⟩, hind⟩
+
+/-! ### the floating-point lines of `_graph_finder`, read in exact arithmetic
+
+  `assert int(np.round(np.linalg.det(x_mat))) % 2 != 0` and `x_inv = (np.round(det(x_mat.T) * inv(x_mat.T)) % 2).astype(int)`:
+  for an integer matrix `det · inv` is the adjugate, an integer matrix; `S2G.adjInv` is that reading (`none` = the assertion fires).
+  Proved here: with it the conversion is complete and returns exactly what the executable model (Gauss–Jordan over GF(2)) returns.
+  NOT proved (compared per input by the harness; D49 was a failure of exactly this): that LAPACK's `det · inv` is within 1/2 of the
+  adjugate, i.e. that `np.round` recovers it. -/
+
+/-- **the determinant assertion cannot fire in exact arithmetic** (every n ≥ 1, every stabilizer state): the integer determinant of
+    `x_mat` after `row_reduction` and the Hadamards chosen by the repaired `_position_finder` is odd (so is that of `x_mat.T`) -/
+theorem determinant_assertion_holds_exactly (t : STab) (hn : 0 < t.n) (hstate : IsStabilizerState t) :
+    (S2G.intMat t.n (S2G.xAfterHadamards (S2G.XZ.ofSTab t))).det % 2 = 1 ∧
+    (S2G.intMat t.n (S2G.transpose (S2G.xAfterHadamards (S2G.XZ.ofSTab t)))).det % 2 = 1 :=
+  have h := S2G.det_xAfterHadamards_odd (S2G.XZ.ofSTab t) hn (comm_ofSTab t hstate.1) hstate.2
+  ⟨h.2, h.1⟩
+
+/-- the adjugate reduced mod 2 is a correct GF(2) inverse on every matrix with trivial kernel, and it is entry by entry the matrix the
+    executable model computes by Gauss–Jordan elimination -/
+theorem exact_det_inv_is_the_model_inverse (n : Nat) :
+    S2G.InvOK S2G.adjInv n ∧
+    ∀ A, S2G.Inj n A → ∃ M M', S2G.adjInv n A = some M ∧ S2G.gf2InvF n A = some M' ∧ ∀ i j, i < n → j < n → M i j = M' i j :=
+  ⟨S2G.adjInv_ok n, fun A h => S2G.adjInv_eq_gf2InvF n A h⟩
+
+/-- **`state_to_graph` with the exact-arithmetic `det · inv % 2` is the executable model** (every n ≥ 1, every stabilizer state): same
+    graph, same gate list; in particular it returns and is exact (`state_to_graph_correct`) -/
+theorem state_to_graph_exact_arithmetic (t : STab) (hn : 0 < t.n) (hstate : IsStabilizerState t) :
+    S2G.stateToGraphWith S2G.adjInv t = S2G.stateToGraph t :=
+  stateToGraphWith_adjInv t hn hstate.1 hstate.2
 
 /-- **`state_to_graph` returns exactly on the stabilizer states** (tableaux without i-phase): the modelled conversion returns a result
     iff `n ≥ 1` and the rows commute pairwise and are linearly independent.  (⇐ is `state_to_graph_exact_complete`; ⇒: the re-check
